@@ -357,6 +357,7 @@ def run_config(case):
         shutil.rmtree(root, ignore_errors=True)
     out = ok(outcome=None, histories=n_hist, crash_images=n_imgs, raw_ops=n_raw, images_validated=n_val)
     out.update(evals=n_hist + n_imgs, distinct=n_hist + n_imgs, states=[digest((cfg, s)) for s in states],
+               outcome_list=[digest(('end-state', cfg['dtype'], cfg['row'], cfg['bs'], s)) for s in states],
                transitions=transitions, validated=n_val)
     return out
 
